@@ -24,13 +24,13 @@ BaseExtra == [base |-> TRUE]
 
 \* ---------------- pool A: competition / backtracking / abandoned captures
 PatsA == {"/u/{id}", "/u/{id:\\d+}", "/u/{id:digit}", "/u/5", "/u/{id}/x", "/u/{id}/{p:\\d+}",
-          "/u/{id}/{act}/log", "/u/{-id}/z", "/u/{uid}/x", "/u/{u}/y", "/p/{id:\\d+}.h", "/p-{a}-{b:any}.h"}
+          "/u/{id}/{act}/log", "/u/{-id}/z", "/u/{uid}/x", "/u/{u}/y", "/p/{id:\\d+}.h", "/p-{a}-{b:any}.h", "/p/{-id:\\d+}.h"}
 HOpsA == {H(p, ms) : p \in PatsA, ms \in {G, P}}
 ROpsA == {Rm(p, ms) : p \in PatsA, ms \in {<<>>, G}}
-COpsA == {Cl(""), Cl("/u/"), Cl("/p"), Cl("/u/{id}/")}
+COpsA == {Cl(""), Cl("/u/"), Cl("/p"), Cl("/u/{id}/"), Cl("/u/{id}"), Cl("/u/5")}
 UOpsA == {}
 CfgsA == {Cfg(FALSE)}
-BasesA == {<<>>,
+BasesA == {<<>>, <<H("/p/{-id:\\d+}.h", G), H("/u/{id}", G)>>,
            <<H("/u/{id}/x", G), H("/u/{id}/{p:\\d+}", G), H("/u/{id}/{act}/log", G)>>,
            <<H("/u/{uid}/x", G), H("/u/5", G), H("/u/{id:digit}", G), H("/u/{id:\\d+}", GP), H("/p/{id:\\d+}.h", G)>>}
 ProbesA == <<W("/u/{id}", [id |-> "7q"]), W("/u/{id:\\d+}", [id |-> "77"]), W("/u/{id:digit}", [id |-> "78"]), W("/u/5", <<>>),
@@ -72,12 +72,13 @@ MethodsB == <<"GET", "HEAD", "POST", "OPTIONS", "BOGUS">>
 PatsC == {"/posts/author", "/posts/abc", "/posts/{id}/author", "/posts/", "/", "/posts/{id}"}
 Dl == <<"DELETE">>
 HOpsC == {H(p, ms) : p \in PatsC, ms \in {G, P, Dl}}
-ROpsC == {Rm(p, ms) : p \in PatsC, ms \in {<<>>, G, P, <<"DELETE", "PUT">>}}
-COpsC == {Cl(""), Cl("/posts/"), Cl("/posts/a")}
+ROpsC == {Rm(p, ms) : p \in PatsC, ms \in {<<>>, G, P, <<"DELETE", "PUT">>, <<"GET", "GET">>}}
+COpsC == {Cl(""), Cl("/posts/"), Cl("/posts/a"), Cl("/posts/{id}"), Cl("/posts/{id}/")}
 UOpsC == {}
 CfgsC == {Cfg(FALSE), Cfg(TRUE)}
 \* the second base has interior nodes that are routes themselves ("/", "/posts/") with live routes below them
-BasesC == {<<>>, <<H("/", G), H("/posts/", GP), H("/posts/author", G), H("/posts/{id}/author", G)>>}
+BasesC == {<<>>, <<H("/", G), H("/posts/", GP), H("/posts/author", G), H("/posts/{id}/author", G)>>,
+           <<H("/posts/author", G), H("/posts/abc", P), H("/posts/{id}", Dl), H("/posts/{id}/author", G)>>}
 ProbesC == <<W("/posts/author", <<>>), W("/posts/abc", <<>>), W("/posts/{id}/author", [id |-> "7q"]), W("/posts/", <<>>), W("/", <<>>),
              W("/posts/{id}", [id |-> "7q"]), A("/posts/autho"), A("/posts/authors"), A("/posts"), A("/posts/author/author"),
              A("/posts/a"), A(""), A("*")>>
@@ -85,7 +86,7 @@ MethodsC == <<"GET", "HEAD", "POST", "DELETE", "PUT", "OPTIONS", "TRACE", "BOGUS
 
 \* ---------------- pool X: Handle / Remove with every kind of method list (C17, C08, C03)
 PatsX == {"/u/{id}/ab", "/u/{id}/ac", "/u/{id}", "/u/{name}", "/x", "/u/{id:\\d+}"}
-BadPatsX == {"/u/{}", "/u/{a}{b}", "/u/{a}/{a}", "", "/u/{:\\d+}"}
+BadPatsX == {"/u/{}", "/u/{a}{b}", "/u/{a}/{a}", "", "/u/{:\\d+}", "/u/{a}/{-a}", "/u/{-a}/{a:\\d+}"}
 ListsX == {G, P, <<"GET", "BOGUS">>, <<"BOGUS", "GET">>, <<"HEAD">>, <<"POST", "OPTIONS">>, <<"TRACE">>, <<"GET", "GET">>, <<"GET", "POST">>, <<>>}
 HOpsX == {H(p, ms) : p \in PatsX, ms \in ListsX} \cup {H(p, G) : p \in BadPatsX}
 ROpsX == {Rm(p, ms) : p \in PatsX \ {"/u/{name}"}, ms \in {<<>>, G, <<"HEAD">>, <<"OPTIONS">>, <<"">>, <<"BOGUS">>, <<"TRACE">>, <<"POST", "GET">>}}
@@ -98,4 +99,27 @@ ProbesX == <<W("/u/{id}/ab", [id |-> "7q"]), W("/u/{id}/ac", [id |-> "7q"]), W("
              A("/u/x/ac/ab"), A("/u/7q/a"), A("/u/7/ab/ab"), A("/u/"), A("/"), A(""), A("*")>>
 MethodsX == <<"GET", "HEAD", "POST", "OPTIONS", "TRACE", "BOGUS", "">>
 
+
+\* ---------------- pool M: a medium pool for the exhaustive model check of the design-level properties (thorough tier)
+PatsM == {"/u/{id}", "/u/{id:\\d+}", "/u/5", "/u/{id}/x", "/u/{id}/{p:\\d+}", "/u/{id:digit}"}
+HOpsM == {H(p, ms) : p \in PatsM, ms \in {G, P}}
+ROpsM == {Rm(p, ms) : p \in PatsM, ms \in {<<>>, G}}
+COpsM == {Cl(""), Cl("/u/{id}/")}
+UOpsM == {}
+CfgsM == {Cfg(FALSE), Cfg(TRUE)}
+BasesM == {<<>>}
+ProbesM == <<W("/u/{id}", [id |-> "7q"]), W("/u/{id:\\d+}", [id |-> "77"]), W("/u/5", <<>>), W("/u/{id}/x", [id |-> "7q"]), W("/u/{id}/{p:\\d+}", [id |-> "7q", p |-> "88"]),
+             W("/u/{id:digit}", [id |-> "78"]), A("/u/7/x/x"), A("/u/"), A("/u/5/x"), A("/u/5/7"), A("/u/7a/8"), A("/"), A(""), A("*")>>
+MethodsM == <<"GET", "HEAD", "POST", "OPTIONS", "TRACE", "BOGUS">>
+
+\* ---------------- pool R: a surviving node loses all of its five children, one by one (every order, with repeats)
+PatsR == {"/a", "/b", "/c", "/d", "/e"}
+HOpsR == {H("/a", P)}
+ROpsR == {Rm(p, <<>>) : p \in PatsR}
+COpsR == {}  UOpsR == {}
+CfgsR == {Cfg(FALSE)}
+BasesR == {<<H("/", G), H("/a", G), H("/b", G), H("/c", G), H("/d", G), H("/e", G)>>,
+           <<H("/a", G), H("/b", G), H("/c", G), H("/d", G), H("/e", G), H("{top}", G)>>}
+ProbesR == <<W("/", <<>>), W("/a", <<>>), W("/b", <<>>), W("/e", <<>>), W("{top}", [top |-> "7q"]), A("/zz"), A("/a/x"), A("x"), A(""), A("*")>>
+MethodsR == <<"GET", "POST", "OPTIONS">>
 =============================================================================
